@@ -28,6 +28,11 @@ Bcast(e) == LET s == den[e.from] IN
             /\ den' = Put(e.id, [k |-> s.k, w |-> s.w, d |-> Replicate(s.d, e.N)])
             /\ IF e.sig = "none" THEN UNCHANGED nrej ELSE Reject
 
+\* {"e":"copy","id":..,"from":..,"form":"ctor"|"assign"}: a denominator is a value - the copy (or the object
+\* assigned to, whatever divisor it held before) divides like its source
+Copy(e) == /\ den' = Put(e.id, den[e.from])
+           /\ IF e.sig = "none" THEN UNCHANGED nrej ELSE Reject
+
 \* {"e":"dshift","id":..,"from":..,"o":"shl"|"shr","s":[lane bytes],"sig":..}: den << s / den >> s multiply / divide
 \* the divisor by 2^s (beyond C14; the driver only issues amounts that keep the divisor exact)
 DShift(e) == LET o == den[e.from]
@@ -50,6 +55,7 @@ Consume == /\ l <= Len(Tr)
                 CASE e.e = "new"   -> New(e)
                   [] e.e = "bcast" -> Bcast(e)
                   [] e.e = "dshift" -> DShift(e)
+                  [] e.e = "copy"  -> Copy(e)
                   [] e.e = "div"   -> Div(e)
                   [] e.e = "value" -> Value(e)
                   [] OTHER -> Reject /\ UNCHANGED den
